@@ -4,6 +4,7 @@ import NitroVerif.Driver.Table
 import NitroVerif.Driver.Barrier
 import NitroVerif.Driver.RefCount
 import NitroVerif.Driver.SkipConc
+import NitroVerif.Driver.SkipConcInj
 import NitroVerif.Driver.SkipSeq
 import NitroVerif.Driver.Mvcc
 import NitroVerif.Driver.Backup
@@ -18,7 +19,7 @@ def engineByName (name : String) : Option Engine :=
   | "nodelist" => some nodeListEngine
   | "barrier" => some barrierEngine
   | "refcount" => some refcountEngine
-  | "skipconc" => some skipConcEngine
+  | "skipconc" => some skipConcInjEngine
   | "skipseq" => some skipSeqEngine
   | "mvcc" => some mvccBkEngine
   | "mvccconc" => some mvccConcEngine
